@@ -94,56 +94,81 @@ package ast
 //@ func (*LoggingListener).printDebug
 //@   pure
 //@ func (*Stack).push
+//@   props C10
 //@   modifies stack.values
 //@   ensures len(stack.values) == old(len(stack.values)) + 1 && stack.values[old(len(stack.values))] == val
 //@   ensures forall(i, 0 <= i && i < old(len(stack.values)) ==> stack.values[i] == old(stack.values[i]))
 //@ func (*Stack).pop
+//@   props C10
 //@   modifies stack.values
 //@   ensures[empty] old(len(stack.values)) == 0 ==> result1 != nil && result0 == nil && len(stack.values) == 0
 //@   ensures[top] old(len(stack.values)) > 0 ==> result1 == nil && result0 == old(stack.values[len(stack.values)-1]) && len(stack.values) == old(len(stack.values)) - 1
 //@   ensures forall(i, 0 <= i && i < len(stack.values) ==> stack.values[i] == old(stack.values[i]))
 //@ func (*Stack).peek
+//@   props C10
 //@   pure
 //@   ensures len(stack.values) == 0 ==> result == nil
 //@   ensures len(stack.values) > 0 ==> result == stack.values[len(stack.values)-1]
 
 //@ typeinv ToBoltListener: self.stacks != nil && self.currentStack != nil
 //@ func (*ToBoltListener).HasError
+//@   props C10
 //@   pure
 //@   ensures result == (bl.err != nil)
 //@ func (*ToBoltListener).GetError
+//@   props C10
 //@   pure
 //@   ensures result == bl.err
 //@ func (*ToBoltListener).SetError
+//@   props C10
 //@   modifies bl.err
 //@   ensures old(bl.err) != nil ==> bl.err == old(bl.err)
 //@   ensures old(bl.err) == nil ==> bl.err == err
 //@ func (*ToBoltListener).enterGroup
+//@   props C10
 //@   modifies bl.currentStack, bl.stacks.values
 //@   ensures bl.currentStack != nil && bl.stacks == old(bl.stacks)
 //@ func (*ToBoltListener).exitGroup
+//@   props C10
 //@   modifies bl.currentStack, bl.stacks.values, bl.err
 //@   ensures bl.currentStack != nil && bl.stacks == old(bl.stacks)
 //@   ensures old(bl.err) != nil ==> bl.err != nil
+// everything on a parse stack is a usable value (never a nil interface or a nil pointer in an interface)
+//@ typeinv Stack: forall(i, 0 <= i && i < len(self.values) ==> self.values[i] != nil && ref(self.values[i]) != 0)
 //@ func (*ToBoltListener).pushStack
+//@   props C10
+//@   requires[usable] val != nil && ref(val) != 0
 //@   modifies bl.currentStack.values
+//@   ensures[pushed] bl.err == nil ==> len(bl.currentStack.values) == old(len(bl.currentStack.values)) + 1 && bl.currentStack.values[old(len(bl.currentStack.values))] == val
+//@   ensures[rest-kept] forall(i, 0 <= i && i < old(len(bl.currentStack.values)) ==> bl.currentStack.values[i] == old(bl.currentStack.values[i]))
+//@   ensures[noop-on-error] bl.err != nil ==> len(bl.currentStack.values) == old(len(bl.currentStack.values))
 //@ func (*ToBoltListener).popStack
+//@   props C10
 //@   modifies bl.currentStack.values, bl.err
-//@   ensures old(bl.err) != nil ==> bl.err != nil
+//@   ensures[latch] old(bl.err) != nil ==> bl.err != nil
+//@   ensures[top] old(bl.err) == nil && old(len(bl.currentStack.values)) > 0 ==> bl.err == nil && result == old(bl.currentStack.values[len(bl.currentStack.values)-1]) && len(bl.currentStack.values) == old(len(bl.currentStack.values)) - 1
+//@   ensures[rest-kept] forall(i, 0 <= i && i < len(bl.currentStack.values) ==> bl.currentStack.values[i] == old(bl.currentStack.values[i]))
 //@ func (*ToBoltListener).peekStack
+//@   props C10
 //@   pure
 //@ func (*ToBoltListener).popNode
+//@   props C10
 //@   modifies bl.currentStack.values, bl.err
 //@   ensures[latch] old(bl.err) != nil ==> bl.err != nil
-//@   ensures[usable] bl.err == nil ==> result != nil
+//@   ensures[usable] bl.err == nil ==> result != nil && ref(result) != 0
+//@   ensures[top-node] old(bl.err) == nil && old(len(bl.currentStack.values)) > 0 && istype(old(bl.currentStack.values[len(bl.currentStack.values)-1]), Node) ==> bl.err == nil && result == old(bl.currentStack.values[len(bl.currentStack.values)-1]) && len(bl.currentStack.values) == old(len(bl.currentStack.values)) - 1
+//@   ensures[rest-kept] forall(i, 0 <= i && i < len(bl.currentStack.values) ==> bl.currentStack.values[i] == old(bl.currentStack.values[i]))
 //@ func (*ToBoltListener).popSymbolNode
+//@   props C10
 //@   modifies bl.currentStack.values, bl.err
 //@   ensures[latch] old(bl.err) != nil ==> bl.err != nil
-//@   ensures[usable] bl.err == nil ==> result != nil
+//@   ensures[usable] bl.err == nil ==> result != nil && ref(result) != 0
 //@ func (*ToBoltListener).popBinaryOperand
+//@   props C10
 //@   modifies bl.currentStack.values, bl.err
 //@   ensures[latch] old(bl.err) != nil ==> bl.err != nil
 //@ func (*ToBoltListener).popSetFunction
+//@   props C10
 //@   modifies bl.currentStack.values, bl.err
 //@   ensures[latch] old(bl.err) != nil ==> bl.err != nil
 
